@@ -175,6 +175,18 @@ def _r15_records_left_out_only_at_the_end_of_the_buffer(ctx):
                     okb = {bb for bb, idx, st in b.stmts() if st["p"] == (0,) and st.get("rv") and st["rv"]["k"] == "agg" and st["rv"].get("variant") == "Ok"}
                     if not (r & okb):
                         continue
+                    # (in a spliced helper the `?` hands its error to the caller's `?`: an exit that runs straight into from_residual)
+                    x, residual = v, False
+                    for _ in range(8):
+                        tx = b.blocks[x]["term"]
+                        if tx is not None and tx["k"] == "call" and "from_residual" in (callee_name(tx) or ""):
+                            residual = True
+                            break
+                        if len(cfg.succ[x]) != 1:
+                            break
+                        x = cfg.succ[x][0]
+                    if residual:
+                        continue
                     n += 1
                     ctx.check(edge_dominated(cfg, ended, v) or edge_dominated(cfg, ended, u), "R15", "section-cut-short-only-at-the-end-of-the-buffer", ctx.where(b, tmu.get("sp")),
                               "a section loop is left before its count is reached on a path where the buffer was not found exhausted")
